@@ -48,3 +48,16 @@ fn prepared_update_param_only_writes_no_wal() {
     assert!(b2 > b1, "second prepared update (cached plan) must append to the WAL");
     assert!(b3 > b2, "third prepared update (cached plan) must append to the WAL");
 }
+
+#[test]
+fn bound_float_parameter_behaves_like_the_float_literal() {
+    let dir = tempdir().unwrap();
+    let db = Database::create(&dir.path().join("db")).unwrap();
+    db.execute("CREATE TABLE t (id BIGINT PRIMARY KEY, v BIGINT)").unwrap();
+    db.execute("INSERT INTO t VALUES (1, 10)").unwrap();
+    let lit = db.query("SELECT id FROM t WHERE 1.0 / 2 = 0.5").unwrap().len();
+    let st = db.prepare("SELECT id FROM t WHERE ? / 2 = 0.5").unwrap();
+    let bound = st.bind(OwnedValue::Float(1.0)).query(&db).map(|r| r.len()).map_err(|e| e.to_string());
+    eprintln!("literal rows={} bound={:?}", lit, bound);
+    assert_eq!(bound, Ok(lit), "a bound Float(1.0) must behave like the literal 1.0 (it is re-rendered as the SQL text `1`)");
+}
